@@ -213,6 +213,36 @@ func runC06(c *Ctx) {
 			}
 		}
 	}
+	// a walk loop written in a read-path function itself, over bytes that function obtained (not handed in)
+	for _, w := range walks {
+		if !rp[w.fn] || w.container == nil {
+			continue
+		}
+		if _, isP := flow.Peel(w.container).(*ssa.Parameter); isP {
+			continue
+		}
+		n++
+		key := fname(w.fn) + ":body-bytes-walked-in-place"
+		var bad, unk, descs []string
+		for _, o := range c.storageOrigins(w.container) {
+			descs = append(descs, o.Kind+":"+o.Desc)
+			switch o.Kind {
+			case "make", "string-copy", "nil":
+			case "pool", "global":
+				bad = append(bad, o.Kind+" "+o.Desc)
+			default:
+				unk = append(unk, o.Kind+" "+o.Desc)
+			}
+		}
+		switch {
+		case len(bad) > 0 && len(aliases) > 0:
+			r.Fail("R2", key, c.pos(w.call), fmt.Sprintf("the message body is decoded out of shared storage (%s) while decoders %v return views into their input: a message kept by a handler changes when the storage is reused by a later read", strings.Join(bad, "; "), aliases))
+		case len(unk) > 0 && len(aliases) > 0:
+			r.Undecided("R2", key, c.pos(w.call), "cannot establish that the body bytes are private: origin "+strings.Join(unk, "; "))
+		default:
+			r.Ok("R2", key, c.pos(w.call), "body bytes originate only from "+strings.Join(descs, ", "))
+		}
+	}
 	if n == 0 {
 		r.Undecided("R2", "role:body-to-walk", "-", "no call from the read path into an AVP walk function")
 	}
